@@ -9,14 +9,18 @@ from genlib import *
 
 LEAN_MODULES = ["MpirProofs.Props.C01_mulmid"]
 THEOREMS = ["Mpir.MulMid.mulmid_basecase_spec", "Mpir.MulMid.mulmid_n_spec", "Mpir.MulMid.mulmid_spec", "Mpir.MulMid.tmSpec_ok",
-            "Mpir.MulMid.mp_pairs_spec", "Mpir.MulMid.mulmid_pairs_spec"]
-PINS = [("mpn/generic/mulmid_basecase.c", "mpn_mulmid_basecase"), ("mpn/generic/mulmid_n.c", "mpn_mulmid_n"),
+            "Mpir.MulMid.mp_pairs_spec", "Mpir.MulMid.mulmid_pairs_spec", "Mpir.MulMid.toom42_odd_fixup_partial",
+            "Mpir.MulMid.toom42_mulmid_spec_partial"]
+PINS = [("mpn/generic/toom42_mulmid.c", None), ("gmp-impl.h", "SUBC_LIMB"), ("mpn/generic/add_err1_n.c", "mpn_add_err1_n"),
+        ("mpn/generic/add_err2_n.c", "mpn_add_err2_n"), ("mpn/generic/sub_err2_n.c", "mpn_sub_err2_n"),
+        ("mpn/generic/mulmid_basecase.c", "mpn_mulmid_basecase"), ("mpn/generic/mulmid_n.c", "mpn_mulmid_n"),
         ("mpn/generic/mulmid.c", None), ("gmp-impl.h", "ADDC_LIMB")]
 TRUSTED = ["hand-written limb-level models of mpn_mulmid_basecase / mpn_mulmid_n / mpn_mulmid in lean/Mpir/Model/MulMid.lean (run against the "
            "library, all output limbs, on every check with MULMID_TOOM42_THRESHOLD of the tree)",
            "the linked mpn_mulmid_basecase is assembly; the generic C modelled here is its reference (differential tie: op mm_basecase here, k_mulmid_basecase in C14)"]
-ASSUMPTIONS = ["mpn_toom42_mulmid (toom42_mulmid.c) is NOT modelled: it enters mulmid_n / mulmid by its specification {rp,n+2} = MP({ap,2n-1},{bp,n}) "
-               "(hypothesis `TmSpec` of the theorems, `tmSpec` in the driver)",
+ASSUMPTIONS = ["mpn_toom42_mulmid (toom42_mulmid.c) is modelled limb for limb (Mpir/Model/MulMidToom.lean, op mm_toom42, and it is the callee of the "
+               "driver's mulmid_n / mulmid), its recursion, dispatch and odd row/diagonal are proved (toom42_odd_fixup_partial, toom42_mulmid_spec_partial); its even core (e0..e5 "
+               "corrections, neg, evaluation: hypothesis `EvenCore`) is run only, so mulmid_n_spec / mulmid_spec hold for the real callee modulo `EvenCore`",
                "mpn_mul_1 / mpn_addmul_1 / mpn_add_n / mpn_add_1 by the kernel models of Mpir/Model/Kernels.lean (theorems of C03/C01 leaves)",
                "documented size restriction `vn << GMP_NUMB_MAX` taken as bn <= 2^64"]
 RULE = ("mm_basecase: every (un, vn) with vn <= un <= 12 and around 2^k; mm_mulmid_n: n = 1..T+3 (T = MULMID_TOOM42_THRESHOLD) and 2T; mm_mulmid: the "
@@ -46,6 +50,11 @@ def gen_ops(rng, tier, ctx=None):
     # mulmid_n around the threshold
     for n in list(range(1, T + 4)) + [2 * T, 2 * T + 1] + ([4 * T, 301] if thorough else []):
         for a, b in _pairs(rng, 2 * n - 1, n): yield "mm_mulmid_n %s %s" % (a, b)
+    # toom42_mulmid directly: n = 4..40 odd and even (one level at the tree's threshold), 2T..4T+1 (recursion), all-ones / runs / uniform / sparse
+    for n in list(range(4, 41)) + [2 * T, 2 * T + 1, 2 * T + 9, 4 * T, 4 * T + 1] + ([8 * T + 3, 301] if thorough else []):
+        for a, b in _pairs(rng, 2 * n - 1, n, ("ones", "uniform", "runs", "sparse")): yield "mm_toom42 %s %s" % (a, b)
+        yield "mm_toom42 %s %s" % (vec(rand_limbs(rng, 2 * n - 1, "uniform")), vec([M] * n))
+        yield "mm_toom42 %s %s" % (vec(rand_limbs(rng, 2 * n - 1, "runs")), vec(rand_limbs(rng, n // 2, "uniform") + rand_limbs(rng, n - n // 2, "zero")))
     shapes = set()
     # small, all regions direct
     for an in range(1, 10):
